@@ -91,7 +91,7 @@ impl Prop for C07 {
                 }
             }
         }
-        let want = Want { renders: true, render_twice: false, obs: false };
+        let want = Want { renders: true, render_twice: false, obs: false, obs_sorted: false };
         let outs = run_session(s, &want)?;
         let trace = trace_hash(&outs);
         let mut violation = None;
